@@ -61,6 +61,72 @@ func init() {
 	})
 }
 
+func init() {
+	// cond_cell: the element name is chosen by a branch:  {{if .C}}<E1{{else}}<E2{{end}} [rel="R"] A="{{.X}}">
+	//   -> for C = true and C = false: analysis outcome and per-probe results (as policy_cell)
+	reg("cond_cell", 4, func(c *caseWriter, in []string) {
+		e1, e2, attr, rel := in[0], in[1], in[2], in[3]
+		pre := "{{if .C}}<" + e1 + "{{else}}<" + e2 + "{{end}}"
+		if rel != "" {
+			pre += ` rel="` + rel + `"`
+		}
+		pre += " " + attr + `="`
+		text := pre + `{{.X}}">`
+		fields := []string{hx(e1), hx(e2), hx(attr), hx(rel)}
+		for _, cond := range []bool{true, false} {
+			outcome := ""
+			var results []string
+			elem := e2
+			if cond {
+				elem = e1
+			}
+			opre := "<" + elem
+			if rel != "" {
+				opre += ` rel="` + rel + `"`
+			}
+			opre += " " + attr + `="`
+			for _, p := range policyProbes {
+				r := runTemplate(text, "", map[string]interface{}{"C": cond, "X": valueFromWire(p)}, false)
+				switch {
+				case r.outcome == "ok":
+					if outcome == "" {
+						outcome = "ok"
+					}
+					mid := r.out
+					if strings.HasPrefix(mid, opre) && strings.HasSuffix(mid, `">`) && len(mid) >= len(opre)+2 {
+						results = append(results, "A:"+hx(mid[len(opre):len(mid)-2]))
+					} else {
+						results = append(results, "X:"+hx(mid))
+					}
+				case r.outcome == "execerr":
+					if outcome == "" {
+						outcome = "ok"
+					}
+					results = append(results, "R")
+				case strings.HasPrefix(r.outcome, "escape:"):
+					outcome = "deny:" + strings.TrimPrefix(r.outcome, "escape:")
+					results = append(results, "D")
+				default:
+					outcome = r.outcome
+					results = append(results, "D")
+				}
+			}
+			fields = append(fields, outcome, strings.Join(results, ","))
+		}
+		c.Case("cond_cell", fields...)
+	})
+	// sc_attr04: the engine's context choice for (element, attribute, normalised rel) through the hook,
+	// judged against the reviewed policy by the driver
+	reg("sc_attr04", 3, func(c *caseWriter, in []string) {
+		sc, err := template.VerifSanitizationContextForAttrVal(in[0], in[1], in[2])
+		name := ""
+		if err == nil {
+			name = template.VerifPolicyTables().ContextNames[sc]
+		}
+		c.Case("sc_attr04", hx(in[0]), hx(in[1]), hx(in[2]), hx(name))
+	})
+}
+
 // probe values, in the order the driver expects (ocaml/drv_c04.ml)
 var policyProbes = []string{
 	"str:" + hx("zq"), "str:" + hx("javascript:alert(1)"), "safe:html:" + hx("<i>h</i>"), "safe:script:" + hx("s()"),
@@ -132,6 +198,26 @@ func runC04(c *caseWriter) (string, bool, map[string]int) {
 	for _, r := range rels {
 		emit(c, "policy_cell", "link", "href", "dq", r)
 		emit(c, "sc_attr", "link", "href", " "+strings.ToLower(strings.Join(strings.Fields(r), " "))+" ")
+	}
+	// element names chosen by a branch, and the context choice for every element under a non-empty rel
+	condElems := []string{"link", "a", "base", "script", "iframe", "embed", "img", "area", "div", "use", "my-element"}
+	for _, e1 := range condElems {
+		for _, e2 := range condElems {
+			if e1 != e2 && (e1 == "link" || e2 == "link" || (len(e1)+len(e2))%3 == 0) {
+				for _, r := range []string{"next", "stylesheet", ""} {
+					emit(c, "cond_cell", e1, e2, "href", r)
+				}
+				emit(c, "cond_cell", e1, e2, "src", "")
+			}
+		}
+	}
+	for _, e := range elems {
+		for _, a := range []string{"href", "src", "title", "data-x", "onclick", "srcdoc"} {
+			for _, r := range []string{" next ", " stylesheet ", " alternate stylesheet ", " icon x ", " modulepreload ", " x-next ", ""} {
+				emit(c, "sc_attr04", e, a, r)
+				emit(c, "sc_attr", e, a, r)
+			}
+		}
 	}
 	// upper / mixed case names reach the tables lower-cased
 	for _, ea := range [][2]string{{"A", "HREF"}, {"Img", "SrC"}, {"SCRIPT", "src"}, {"Div", "onClick"}, {"IFRAME", "SRCDOC"}} {
